@@ -1039,8 +1039,32 @@ type ufFreshC struct {
 	_unknownFields []byte
 }
 
+// a byte-slice type with a name, as older generated code declares the field
+type ufRawFields []byte
+
+type ufFreshNamed struct {
+	_unknownFields ufRawFields
+	N              int
+}
+
+// two function-local types with the same printed name: the first has no _unknownFields field, the second has
+func ufFreshLacking() interface{} {
+	type Resp struct {
+		Other []byte
+	}
+	return &Resp{Other: []byte{1}}
+}
+
+func ufFreshHaving(unk []byte) interface{} {
+	type Resp struct {
+		Other          []byte
+		_unknownFields []byte
+	}
+	return &Resp{_unknownFields: unk}
+}
+
 func TestC13_RejectedFirst(t *testing.T) {
-	rec := evid.New("C13", "c13_rejected_first", "enumeration: for three holder types the library has not met before in the process: the first call passes a nil pointer of the type (rejected with an error or answered with no fields), the following calls pass valid holders (pointer and value) of the same type carrying a well-formed field sequence: each must give the tree ConvertUnknownFields gives, which writes back to the stored bytes; then again a nil pointer and again a valid holder; every type is one evaluation")
+	rec := evid.New("C13", "c13_rejected_first", "enumeration: for five holder types the library has not met before in the process: the first calls pass a nil pointer of the type - or, for one of them, a holder type of the same printed name that lacks the field - (rejected with an error or answered with no fields, the same way twice), the following calls pass valid holders (one type declares the field with a named byte-slice type) (pointer and value) of the same type carrying a well-formed field sequence: each must give the tree ConvertUnknownFields gives, which writes back to the stored bytes; then again a nil pointer and again a valid holder; every type is one evaluation")
 	defer rec.Flush()
 	data := []byte{byte(ref.I32), 0, 1, 0, 0, 0, 7, byte(ref.STRING), 0, 2, 0, 0, 0, 2, 'h', 'i', byte(ref.LIST), 0, 3, byte(ref.BYTE), 0, 0, 0, 1, 9}
 	want, err := uf.ConvertUnknownFields(append([]byte(nil), data...))
@@ -1056,6 +1080,11 @@ func TestC13_RejectedFirst(t *testing.T) {
 		{"ufFreshA", (*ufFreshA)(nil), []func() interface{}{func() interface{} { return &ufFreshA{_unknownFields: data} }, func() interface{} { return ufFreshA{_unknownFields: data} }}},
 		{"ufFreshB", (*ufFreshB)(nil), []func() interface{}{func() interface{} { return ufFreshB{_unknownFields: data} }, func() interface{} { return &ufFreshB{_unknownFields: data} }}},
 		{"ufFreshC", (*ufFreshC)(nil), []func() interface{}{func() interface{} { return &ufFreshC{_unknownFields: data} }}},
+		// the field has a named byte-slice type
+		{"ufFreshNamed", (*ufFreshNamed)(nil), []func() interface{}{func() interface{} { return &ufFreshNamed{_unknownFields: data} }, func() interface{} { return ufFreshNamed{_unknownFields: ufRawFields(data)} }}},
+		// the rejected calls pass a holder type WITHOUT the field (twice: the second must be rejected like the
+		// first); the valid holder is another type with the same printed name
+		{"Resp (function-local; first a type of that name without the field)", ufFreshLacking(), []func() interface{}{func() interface{} { return ufFreshHaving(data) }}},
 	}
 	b := evid.NewBatch()
 	for _, h := range hs {
@@ -1064,7 +1093,11 @@ func TestC13_RejectedFirst(t *testing.T) {
 			for round := 0; round < 2 && viol == nil; round++ {
 				got, err := uf.GetUnknownFields(h.nilPtr)
 				if err == nil && len(got) != 0 {
-					viol = evid.Failf("GetUnknownFields((*%s)(nil)) returned %d fields and no error", h.name, len(got))
+					viol = evid.Failf("GetUnknownFields of the holder that must be rejected (%s) returned %d fields and no error", h.name, len(got))
+					return
+				}
+				if got2, err2 := uf.GetUnknownFields(h.nilPtr); (err2 == nil) != (err == nil) || len(got2) != len(got) {
+					viol = evid.Failf("GetUnknownFields of the same rejected holder (%s) answered (%d fields, %v) the first time and (%d fields, %v) the second time", h.name, len(got), err, len(got2), err2)
 					return
 				}
 				for k, mk := range h.valid {
@@ -1122,4 +1155,64 @@ func init() {
 		cv.nontrivial = true
 		return nil
 	})
+}
+
+// ---- long strings anywhere in the tree -------------------------------------------------------------------
+
+// LongStrCase: a string of L bytes as a top-level field (Where 0), as a list element (1), as a map value (2) or
+// as a field of a struct inside a list (3), followed by a scalar field.
+type LongStrCase struct {
+	L     int `json:"l"`
+	Where int `json:"where"`
+}
+
+func checkLongStr(c LongStrCase, cv *cov) *evid.Violation {
+	if c.L < 0 || c.L > 1<<21 || c.Where < 0 || c.Where > 3 {
+		return nil
+	}
+	str := ref.Value{T: ref.STRING, Str: patternBytes(byte(c.L+c.Where), c.L)}
+	var v ref.Value
+	switch c.Where {
+	case 0:
+		v = str
+	case 1:
+		v = ref.Value{T: ref.LIST, ET: ref.STRING, Elems: []ref.Value{{T: ref.STRING, Str: []byte("a")}, str}}
+	case 2:
+		v = ref.Value{T: ref.MAP, KT: ref.I32, ET: ref.STRING, Elems: []ref.Value{{T: ref.I32, Bits: 7}, str}}
+	default:
+		v = ref.Value{T: ref.LIST, ET: ref.STRUCT, Elems: []ref.Value{{T: ref.STRUCT, Fields: []ref.Field{{ID: 2, V: str}}}}}
+	}
+	data := ref.Append([]byte{byte(v.T), 0, 5}, &v, nil)
+	data = append(data, byte(ref.I16), 0, 6, 0, 9)
+	viol := checkUnknownFields(UFCase{Data: data}, cv)
+	cv.nontrivial = true
+	return viol
+}
+
+func init() { register("c13_long_string", checkLongStr) }
+
+func TestC13_LongStrings(t *testing.T) {
+	rec := evid.New("C13", "c13_long_string", "enumeration: one string of L in {127, 128, 4095, 4096, 4097, 65535, 65536, 65537, 131071, 131072, 131073, 300000, 1048577} bytes as a top-level field, a list element, a map value or a field of a struct inside a list, followed by a scalar field; full C13 oracle, in which the input buffer is overwritten after the conversion and the tree must still write back to the original bytes; distinct by construction")
+	defer rec.Flush()
+	b := evid.NewBatch()
+	for _, l := range []int{127, 128, 4095, 4096, 4097, 65535, 65536, 65537, 131071, 131072, 131073, 300000, 1<<20 + 1} {
+		for w := 0; w < 4; w++ {
+			c := LongStrCase{L: l, Where: w}
+			var cv cov
+			viol := checkLongStr(c, &cv)
+			b.Evals++
+			b.Distinct++
+			b.Nontrivial++
+			if viol != nil {
+				if len(viol.Msg) > 1200 {
+					viol.Msg = viol.Msg[:1200]
+				}
+				failEnum(t, rec, "c13_long_string", c, viol)
+				rec.Merge(b)
+				return
+			}
+		}
+	}
+	rec.Merge(b)
+	rec.SetExhaustive()
 }
